@@ -4,6 +4,7 @@
 package gen
 
 import (
+	"bytes"
 	"fmt"
 	"math/big"
 	"math/rand"
@@ -36,6 +37,7 @@ type Opts struct {
 	SharedTx    bool // try to put the same transaction on sibling branches
 	Linear      bool // no forks
 	KVShare     int  // percentage of contract (key) transactions; 0 = default 40
+	BigDesc     int  // when > 0, transfers carry a description of about this many bytes (large blocks)
 }
 
 // DefaultOpts is the mix used by C01-style histories.
@@ -390,7 +392,12 @@ func (t *Tree) genTransfer(rng *rand.Rand, a *sn.Node, inExt []*protos.TxInputEx
 		kind += fmt.Sprintf("+v%d", ver)
 	}
 	t.ts++
-	x, err := sn.BuildTx(sn.TxSpec{Version: ver, Initiator: from.Address, Signers: []*sn.Key{from}, Inputs: ins,
+	var desc []byte
+	if o.BigDesc > 0 {
+		desc = bytes.Repeat([]byte{byte('a' + rng.Intn(26))}, o.BigDesc/2+rng.Intn(o.BigDesc))
+		kind += "+bigdesc"
+	}
+	x, err := sn.BuildTx(sn.TxSpec{Version: ver, Initiator: from.Address, Signers: []*sn.Key{from}, Inputs: ins, Desc: desc,
 		Outputs: outs, Nonce: t.nextNonce(), Timestamp: t.ts, InExt: inExt, OutExt: outExt, Requests: reqs})
 	return x, kind, err
 }
